@@ -155,6 +155,8 @@ SCENARIOS = {
     "first-added": ([], ["coap"]),
     "many": (["ip", "ip-noconn", "ip-ips", "coap", "ble"], ["ip", "ip-noconn", "ip-ips", "coap", "ble", "ip-v6"]),
 }
+_ALL = ["ip", "ip-noconn", "ip-ips", "ip-v6", "ip-unicode", "ip-escapes", "coap", "coap-unicode", "ble", "ble-uuid", "ip-extra", "ip-lower", "ip-emptyalias"]
+SCENARIOS["whole-pool"] = (_ALL[:-1], _ALL)
 QUICK_SCENARIOS = ["add", "remove", "rewrite-unchanged", "first-added"]
 
 
@@ -668,6 +670,10 @@ def _cache_files(seed):
         "empty": [],
         "two": [("AA:BB:CC:DD:EE:01", 1, tiny, None, 0), ("AA:BB:CC:DD:EE:02", 65535, uni, None, None)],
     }
+    from aiohomekit.model import Accessories
+
+    with open(os.path.join(_repo(), FIXTURES, "idevices_switch.json"), encoding="utf-8") as f:
+        specs["fixture"] = [("AA:BB:CC:DD:EE:03", 3, Accessories.from_list(json.load(f)).serialize(), None, 9)]
     out = {}
     d = tempfile.mkdtemp(prefix="vt-c20-", dir="/tmp")
     try:
